@@ -175,6 +175,22 @@ static void property(Src& s, Case& c) {
       std::string D = t.substr(0, 1) + t.substr(2, ep - 2);
       while (D.size() > 1 && D.back() == '0') D.pop_back();
       int E = x + 1;
+      if (s.coin(1, 5)) {
+        // the exact midpoint followed by zeros and a last non-zero digit (or the digit string just below it), total number
+        // of significant digits anywhere in 20..830 with the region around the decimal fallback's digit capacity dense
+        size_t lo = D.size() + 1;
+        size_t n = s.coin(2, 3) ? (size_t)s.pick(790, 812) : s.coin(1, 2) ? (size_t)s.pick(760, 830) : (size_t)s.pick(20, 830);
+        if (n < lo) n = lo + (size_t)s.pick(0, 3);
+        bool up = s.coin(1, 2);
+        D += std::string(n - D.size(), '0');
+        if (up) D.back() = (char)('0' + s.pick(1, 9));
+        else dec_dec(D, E);
+        while (D.size() > 1 && D[0] == '0') { D.erase(0, 1); E--; }
+        num = spell(s, neg, D, E);
+        kind = std::string("halfway:padded-tail") + (up ? "+" : "-") + (n >= 799 && n <= 801 ? ":digits799-801" : "");
+        if (bits < (1ull << 52)) kind += ":subnormal";
+        break;
+      }
       static const int cut[] = {17, 18, 19, 20, 21, 25, 40, 100, 770};
       size_t n = (size_t)cut[s.index(9)];
       bool exact = n >= D.size();
